@@ -523,3 +523,189 @@ func (c *Ctx) vetoesFirst(rule string) {
 		r.Unknown(rule, "", "Before(EventAuth)", "-", "no registration on Before(EventAuth) found")
 	}
 }
+
+// rememberOnlyOnTrue: the default reader's answer to "does the user want to be
+// remembered" is yes only for the literal value "true" of the rm field.
+func (c *Ctx) rememberOnlyOnTrue(rule string) {
+	r := c.R
+	fn := c.P.FuncOpt("(ab/defaults.UserValues).GetShouldRemember")
+	if fn == nil {
+		return
+	}
+	name := FuncName(fn)
+	isTrueLiteral := func(f Fact) bool {
+		rel := f.Rel()
+		if rel.Op != token.EQL {
+			return false
+		}
+		s, ok := ConstStr(rel.Y)
+		if !ok || s != "true" {
+			return false
+		}
+		x := rel.X
+		if e, isE := x.(*ssa.Extract); isE {
+			x = e.Tuple
+		}
+		lk, isLk := x.(*ssa.Lookup)
+		if !isLk {
+			return false
+		}
+		k, isC := ConstStr(lk.Index)
+		return isC && k == c.P.ConstString("", "CookieRemember")
+	}
+	n := 0
+	for _, b := range fn.Blocks {
+		ret, ok := b.Instrs[len(b.Instrs)-1].(*ssa.Return)
+		if !ok || len(ret.Results) != 1 {
+			continue
+		}
+		n++
+		if cb, isC := ConstBool(ret.Results[0]); isC && !cb {
+			continue
+		}
+		fs := append(append([]Fact{}, FactsAtInstr(ret)...), Fact{Cond: ret.Results[0], Pol: true})
+		r.Check(HoldsGiven(fs, isTrueLiteral), rule, name, "true only for rm == \"true\"", posf(c, ret), "a yes requires the literal value", "the reader says the user asked to be remembered although the rm field is not \"true\" (a present but different value, e.g. rm=false, counts as yes): a remember cookie is issued that was not asked for")
+	}
+	if n == 0 {
+		r.Unknown(rule, name, "returns", "-", "no return found")
+	}
+}
+
+// apiStatusVerbatim: in JSON mode the redirector answers with the status the
+// caller asked for; the only substitution (200 for 307/308) happens under the
+// CorceRedirectTo200 option.
+func (c *Ctx) apiStatusVerbatim(rule string) {
+	r := c.R
+	fn := c.P.FuncOpt("(ab/defaults.Redirector).redirectAPI")
+	if fn == nil {
+		return
+	}
+	name := FuncName(fn)
+	n := 0
+	for _, call := range CallsTo(fn, "(net/http.ResponseWriter).WriteHeader") {
+		n++
+		a := Arg(call, 0)
+		if fieldLoadName(a) == "Code" {
+			r.Ok(rule, name, "WriteHeader(ro.Code)", posf(c, call), "the requested status")
+			continue
+		}
+		isCoerce := func(f Fact) bool {
+			rel := f.Rel()
+			return rel.B != nil && rel.Pol && fieldLoadName(rel.B) == "CorceRedirectTo200"
+		}
+		coerced := HoldsAt(call.(ssa.Instruction), isCoerce)
+		if phi, isPhi := a.(*ssa.Phi); isPhi && !coerced {
+			// status chosen by a (now inlined) helper: each alternative is the requested
+			// code, or a substitute chosen under the option
+			coerced = true
+			for i, e := range phi.Edges {
+				if fieldLoadName(e) == "Code" {
+					continue
+				}
+				if !HoldsGiven(FactsAtEdge(phi.Block().Preds[i], phi.Block()), isCoerce) {
+					coerced = false
+				}
+			}
+		}
+		r.Check(coerced, rule, name, "WriteHeader(<other>)", posf(c, call), "substituted only under CorceRedirectTo200", "the JSON answer's status is replaced ("+SafeString(a)+") without the CorceRedirectTo200 option being set: API clients get 200 where the configured refusal or redirect status was asked for")
+	}
+	if n == 0 {
+		r.Unknown(rule, name, "WriteHeader", "-", "no status write found")
+	}
+}
+
+// noStateAfterWrite: a session or cookie change made after the function has
+// already produced the response (redirect, status, body, or the downstream
+// handler) is queued behind the single flush and never delivered.
+func (c *Ctx) noStateAfterWrite(rule string) {
+	r := c.R
+	isWrite := func(i ssa.Instruction) bool {
+		call, ok := i.(ssa.CallInstruction)
+		if !ok {
+			return false
+		}
+		switch Callee(call) {
+		case "net/http.Redirect", "net/http.Error", "(net/http.ResponseWriter).Write", "(net/http.ResponseWriter).WriteHeader", "io.WriteString", fnRespond, fnRedirect, fnServeHTTP:
+			return true
+		}
+		return false
+	}
+	n := 0
+	for _, fn := range c.P.Funcs {
+		ops := c.StateOps(fn)
+		if len(ops) == 0 {
+			continue
+		}
+		var writes []ssa.Instruction
+		for _, b := range fn.Blocks {
+			for _, in := range b.Instrs {
+				if isWrite(in) {
+					writes = append(writes, in)
+				}
+			}
+		}
+		if len(writes) == 0 {
+			continue
+		}
+		for _, op := range ops {
+			if op.Op == "get" {
+				continue
+			}
+			n++
+			late := ""
+			for _, w := range writes {
+				if w != op.Call.(ssa.Instruction) && Reaches(w, op.Call.(ssa.Instruction)) && !Reaches(op.Call.(ssa.Instruction), w) {
+					late = c.P.InstrPos(w)
+				}
+			}
+			if late != "" {
+				r.Bad(rule, FuncName(fn), op.String()+" after the response", posf(c, op.Call), "this change is made after the response was produced at "+late+": the client state was flushed with the first header byte, so the change never reaches the store")
+			}
+		}
+	}
+	r.Extra["state_ops_in_writing_functions"] = n
+	if n > 0 {
+		r.Ok(rule, "all packages", "state changes precede the response", "-", sprintf("%d session/cookie changes in functions that also write the response: none is reachable only after the write", n))
+	}
+}
+
+// providerErrors: the functions that fetch the user's details from the
+// provider hand every error they meet back to the callback. A swallowed error
+// (for instance wrapping the wrong, nil, variable) returns (nil, nil): the
+// callback carries on with no details and logs the browser in as the account
+// with the empty uid.
+func (c *Ctx) providerErrors(rule string) {
+	r := c.R
+	n := 0
+	for _, fn := range c.P.Funcs {
+		if pkgOf(fn) != "ab/oauth2" || fn.Parent() != nil {
+			continue
+		}
+		res := fn.Signature.Results()
+		if res.Len() != 2 || !IsErrorType(res.At(1).Type()) || !strings.HasPrefix(res.At(0).Type().String(), "map[string]string") {
+			continue
+		}
+		for _, call := range Calls(fn) {
+			if ErrResult(call) == nil {
+				continue
+			}
+			if _, isDefer := call.(*ssa.Defer); isDefer {
+				continue
+			}
+			if cn := Callee(call); isErrorCtor(cn) || strings.Contains(cn, "errors.") {
+				continue // builds the error that is handed back
+			}
+			n++
+			k, _ := c.errHandling(call)
+			ok := k == "returned"
+			why := "error is " + k
+			if k == "tested" {
+				ok, why = c.errPropagated(call)
+			}
+			r.Check(ok, rule, FuncName(fn), Callee(call)+".err", posf(c, call), "handed back to the callback", "an error met while fetching the provider's user details is not handed back ("+why+"): the function answers (nil, nil) and the callback logs the browser in with empty details")
+		}
+	}
+	if n == 0 {
+		r.Info(rule, "ab/oauth2", "provider detail functions", "-", "no provider detail fetcher with error-returning calls found")
+	}
+}
